@@ -196,6 +196,8 @@ class _Flow:
                 elif is_call(x):
                     pt = x.get("pt") or []
                     args = x.get("a", [])
+                    if k == "OpCall" and x.get("op") == "()" and args and (x.get("ccls") == "<lambda>" or "lambda" in (fn.ntype(_unc(args[0]) or {}) or "")):
+                        hard.add(("via", "<lambda>"))        # a local lambda may write whatever it captured by reference
                     if k == "OpCall" and x.get("op") in MUT_OPS and args:
                         mark(args[0])
                     off = 1 if (k == "OpCall" and len(args) == len(pt) + 1) else 0
@@ -370,8 +372,13 @@ def resolve_aliases(fn, value_aliases=True, ref_aliases=True, ptr_aliases=True, 
         if n.get("k") == "Ref" and n.get("d") in cands:
             uses.setdefault(n["d"], []).append(n)
     flow = _Flow(fn)
+    opaque.add("<lambda>")
     flow.opaque = opaque
     flow.reflocals = {n["d"] for n in fn.nodes() if n.get("k") == "Var" and n.get("ref") and "d" in n}
+    in_lambda = set()
+    for n in fn.nodes():
+        if n.get("k") == "Lambda":
+            in_lambda |= {id(x) for x in walk(n.get("body"))}
     par = flow.parents
     cursors = {}
     # single assignment (references cannot be re-seated; writing THROUGH a reference / pointer alias is fine)
@@ -464,8 +471,8 @@ def resolve_aliases(fn, value_aliases=True, ref_aliases=True, ptr_aliases=True, 
         ok_uses = []
         for u in my_uses:
             w = flow.where(u)
-            if w is None or w in tainted:
-                continue
+            if w is None or w in tainted or id(u) in in_lambda:
+                continue          # (a lambda body runs when the lambda is called, not where it is written)
             ok_uses.append(u)
         if stats is not None:
             stats[kind] = stats.get(kind, 0) + 1
@@ -576,9 +583,13 @@ def bind_params(fn, bindings):
     if fn.body is None or fn.cfg is None or not bindings:
         return
     flow = _Flow(fn)
-    flow.opaque = set()
+    flow.opaque = {"<lambda>"}
     flow.reflocals = set()
     par = flow.parents
+    in_lambda = set()
+    for n in fn.nodes():
+        if n.get("k") == "Lambda":
+            in_lambda |= {id(x) for x in walk(n.get("body"))}
     for n in fn.nodes():
         if n.get("k") == "Var" and "d" in n:
             t = (fn.type(n.get("t")) or "").strip()
@@ -635,7 +646,7 @@ def bind_params(fn, bindings):
             elif (hard & deps) or ("@*" in hard and any(isinstance(v, str) and v.startswith("@") for v in deps)) or ((soft | via) & content):
                 bad_nodes.add(node)
         tainted = flow.reach(bad_nodes, None) if bad_nodes else set()
-        ok_uses = [u for u in uses if flow.where(u) is not None and flow.where(u) not in tainted]
+        ok_uses = [u for u in uses if flow.where(u) is not None and flow.where(u) not in tainted and id(u) not in in_lambda]
         if len(ok_uses) != len(uses):
             continue
         if kind == "val":
